@@ -15,8 +15,10 @@ JAVA_CAUSE_PREFIX = "Invariant violated:\n"
 
 RULE = (
     "meta-models accepted by all four generators (MMG restricted by probing: lists only "
-    "of classes, no len(bytearray) unless the Java leg is skipped, docstring on classes "
-    "with several bases, no implementation-specific code; plus the small corpus models) "
+    "of classes, docstring on classes with several bases, no implementation-specific code; "
+    "even-numbered models without int/float/len(bytearray)/integer sets/primitive constants "
+    "so that the Java SDK compiles, odd-numbered ones with them; plus the small corpus "
+    "models) "
     "x instances (half invariant-satisfying, half arbitrary; ints within +-2^53, finite "
     "floats) and structurally mutated JSON documents; every SDK is produced by the real "
     "generator, compiled/run with the real toolchain (node 22, javac/java + Jackson, g++ "
@@ -371,6 +373,8 @@ def compare_leg(
             continue
         rec = res.by_case.get(case.idx)
         if rec is None:
+            if res.sanitizer_reports:
+                continue  # the sanitizer stopped the driver; reported once per model
             chk.violation(f"{leg}/driver-printed-no-line-for-case", witness(case, detail=res.detail[:1500]))
             continue
         chk.count(f"{leg}_cases_compared")
